@@ -354,6 +354,20 @@ def gen_cases(ck, DP):
             for fm in ("json", "txt"):
                 cases.append({"family": "backend_x_layout_x_format_x_2cycles", "domain": True, "oracle": "roundtrip", "dp": dp, "steps": cycles([fm, fm]),
                               "replay": {"kind": "backend", "backend": nm, "layout": lay, "formats": [fm, fm]}, "key": (nm, tuple(lay), fm)})
+    # the same import with the layout's labels given as numpy integers (list(np.arange(k)), np.int64 labels): the metadata then carries numpy scalars
+    for nm in names[:3 if ck.tier == "quick" else 12]:
+        try:
+            b = make_backend(nm); nq = b.num_qubits
+            for lay in ([np.int64(q) for q in range(min(nq, 3))], [np.int64(min(nq - 1, 4)), np.int64(1)] if nq > 2 else [np.int64(0)]):
+                dp = DP(list(lay))
+                with quiet():
+                    dp.load_from_backend(b)
+                for fm in ("json", "txt"):
+                    cases.append({"family": "backend_numpy_integer_labels", "domain": True, "oracle": "roundtrip", "dp": dp, "steps": cycles([fm, fm]),
+                                  "replay": {"kind": "backend", "backend": nm, "layout": [int(q) for q in lay], "numpy_labels": True, "formats": [fm, fm]},
+                                  "key": (nm, "np", tuple(int(q) for q in lay), fm)})
+        except Exception as e:  # noqa
+            skipped.append((nm, type(e).__name__))
     ck.extra["backends_used"] = len(names) - len({s[0] for s in skipped})
     ck.extra["backends_skipped"] = sorted(set(skipped))
     # 2. exhaustive small scope: every list of distinct labels over {0..3} (64 layouts), both formats and one mixed sequence
@@ -445,7 +459,7 @@ def replay_of(case):
 
 def case_from_replay(DP, doc):
     if doc["kind"] == "backend":
-        dp = DP(list(doc["layout"]))
+        dp = DP([np.int64(q) for q in doc["layout"]] if doc.get("numpy_labels") else list(doc["layout"]))
         with quiet():
             dp.load_from_backend(make_backend(doc["backend"]))
         return {"dp": dp, "steps": cycles(doc["formats"]), "oracle": "roundtrip"}
